@@ -16,7 +16,7 @@ from typing import Any, Dict, List, Optional
 from vt import sym
 from vt.props._recv import InlineExecutor, Lab, ackable, encode, make_broker
 
-KINDS = ("valid", "malformed", "unknown", "malformed_raw", "empty", "empty_raw")
+KINDS = ("valid", "malformed", "unknown", "malformed_raw", "empty", "empty_raw", "late_task")
 OUTCOMES = ("return", "raise", "backend_fail", "hook_raise", "never", "timeout", "timeout_cleanup")
 
 
@@ -100,7 +100,8 @@ def run(c: sym.Ctx, spec: Dict[str, Any], on_step: Any = None) -> Run:
             continue
         else:
             labels = {"hook_raise": True} if r.outcomes[i] == "hook_raise" else ({"timeout": 5} if r.outcomes[i] in ("timeout", "timeout_cleanup") else {})
-            data = encode(broker, "t" if r.kinds[i] == "valid" else "nope", f"id{i}", [i], labels)
+            name = {"valid": "t", "late_task": "late"}.get(r.kinds[i], "nope")
+            data = encode(broker, name, f"id{i}", [i], labels)
         msgs.append(ackable(lab, i, data, spec.get("ack_mode", False)) if spec.get("ackable", True) else data)
     broker.script = msgs
     recv = Receiver(
@@ -131,6 +132,17 @@ def run(c: sym.Ctx, spec: Dict[str, Any], on_step: Any = None) -> Run:
         finish.set()
 
     lab.env["stop"] = stop
+    from taskiq import AsyncBroker as _AB
+
+    saved_registry = dict(_AB.global_task_registry)
+    if "late_task" in r.kinds:
+        def register_late() -> None:
+            # the task becomes known while the worker is running (lazy import registering a shared task)
+            from taskiq.brokers.shared_broker import AsyncSharedBroker
+
+            AsyncSharedBroker().task(task_name="late")(target)
+
+        lab.env["register_late"] = register_late
     main = lab.loop.create_task(recv.listen(finish))
     K = spec.get("K", 8)
     stream_end = spec.get("stream_end", False)
@@ -208,6 +220,8 @@ def run(c: sym.Ctx, spec: Dict[str, Any], on_step: Any = None) -> Run:
         r.info["prefetch_value"] = getattr(getattr(recv, "sem_prefetch", None), "_value", None)
     finally:
         lab.close()
+        _AB.global_task_registry.clear()
+        _AB.global_task_registry.update(saved_registry)
     return r
 
 
